@@ -130,10 +130,7 @@ func (fr *frame) execInstr(ins ssa.Instruction, st *State, reach *string) bool {
 		m := fr.val(x.Map)
 		fr.safety(x, *reach, not(eq(m.L[0], "0")), "assignment to entry in nil map")
 		k := fr.val(x.Key)
-		if len(k.L) != 1 {
-			panic(unsupported("map key with several leaves"))
-		}
-		ex.mapSet(st, m, k.L[0], fr.val(x.Value))
+		ex.mapSet(st, m, ex.mapKeyTerm(x.Map.Type().Underlying().(*types.Map), k), fr.val(x.Value))
 	case *ssa.Slice:
 		fr.sliceOp(x, st, *reach)
 	case *ssa.Store:
@@ -711,13 +708,11 @@ func (fr *frame) lookup(x *ssa.Lookup, st *State, reach string) {
 	switch x.X.Type().Underlying().(type) {
 	case *types.Map:
 		k := fr.val(x.Index)
-		if len(k.L) != 1 {
-			panic(unsupported("map key with several leaves"))
-		}
-		v := ex.mapGet(st, xv, k.L[0])
+		kt := ex.mapKeyTerm(x.X.Type().Underlying().(*types.Map), k)
+		v := ex.mapGet(st, xv, kt)
 		ex.assume(imp(reach, rangeFacts(leaves(v.T), v.L, st.Top)))
 		if x.CommaOk {
-			has := ex.mapHas(st, xv, k.L[0])
+			has := ex.mapHas(st, xv, kt)
 			fr.set(x, Val{L: append(append([]string{}, v.L...), has)})
 		} else {
 			fr.set(x, v)
